@@ -26,6 +26,9 @@ case = {'main': [step..], 'other': [step..], 'vars': [[k, data]..], 'dict_in': [
         'parser': None | 'list' | 'keys' | 'keyvaluepairs' | 'string'   (context_parser of main),
         'sc_parser_args': None | [str..]   (config.shortcuts[..]['parser_args'], needs shortcut),
         'args_in': None | [str..]          (args_in the caller passes on every run of main),
+        'file_loader': None | {'layout': 'name'|'dir'|'both'}   main / other are written to a temp dir
+                            as two yaml files whose paths differ only in case and are run through
+                            pypyr's real file loader (sequential tier)
         'vars_yaml': bool   config.vars built by ruamel's round-trip loader from yaml text, as
                             Config.init() does for a config file (CommentedMap/Seq/Set), else plain}
 Strings and bools only come from context parsers; observations encode them as ints (enc)
